@@ -89,6 +89,29 @@ def gen_pairs(run, g, resets):
     return sorted(set(res.printed))
 
 
+QUOTA_CFG = """SPECIFICATION QSpec
+CONSTANTS
+  Peers <- P3
+  PInfo <- PI_addpath
+  Prefixes <- Pfx2
+  LocalAS = 65000
+INVARIANTS
+  Emit
+CHECK_DEADLOCK FALSE
+"""
+
+
+def gen_quota(run):
+    """the ADD-PATH send-max quota: every announce order of three eligible sources x withdrawn source x second
+    withdrawn source (SpeakerQuota.tla, exhaustive TLC run, one schedule each)"""
+    v.write_cfg(run.sc, "SpeakerQuota.cfg", QUOTA_CFG)
+    res = v.tlc(run.sc, "SpeakerQuota", "SpeakerQuota.cfg", workers=1, deadlock=False, timeout=900, seed=run.seed)
+    v.require_design_ok(res, "SpeakerQuota")
+    if not res.printed:
+        raise v.MachineryError("SpeakerQuota printed no schedule:\n" + res.out[-2000:])
+    return sorted(set(res.printed))
+
+
 MECH_CFG = """SPECIFICATION MSpec
 CONSTANTS
   Peers <- P3
@@ -120,7 +143,7 @@ def design_mech(run, thorough):
         run.design(res, "SpeakerMech %s" % g)
 
 
-def run_speaker(run, invs, kf_invs=None, design=design_mech, policy=False, collide=False, pairs=None):
+def run_speaker(run, invs, kf_invs=None, design=design_mech, policy=False, collide=False, pairs=None, quota=False):
     thorough = run.tier == "thorough"
     if design:
         design(run, thorough)
@@ -132,7 +155,7 @@ def run_speaker(run, invs, kf_invs=None, design=design_mech, policy=False, colli
         gnum = num * 3 if (policy and g == "addpath") else num     # the per-path policy cases are rarer
         rg = run.replay.get("group") if run.replay else None
         if run.replay:
-            behs = [run.replay["behaviour"]] if rg in (g, g + "-collide", g + "-pairs") else []
+            behs = [run.replay["behaviour"]] if rg in (g, g + "-collide", g + "-pairs", g + "-quota") else []
         else:
             behs = gen(run, g, gnum, run.seed * 100 + i, steps, policy)
         if not behs:
@@ -152,6 +175,11 @@ def run_speaker(run, invs, kf_invs=None, design=design_mech, policy=False, colli
             traces = run.execute("c01", "pkg/server", "^TestVerifC01$", pb, tag="speaker-%s-pairs" % g, timeout=420)
             run.validate("SpeakerTrace", cfg, traces, pb, known_cfg=kcfg, group=g + "-pairs")
             run.extra["policy_pair_schedules"] = run.extra.get("policy_pair_schedules", 0) + len(pb)
+        if quota and g == "addpath" and rg in (None, g + "-quota"):
+            qb = [run.replay["behaviour"]] if run.replay else gen_quota(run)
+            traces = run.execute("c01", "pkg/server", "^TestVerifC01$", qb, tag="speaker-addpath-quota", timeout=420)
+            run.validate("SpeakerTrace", cfg, traces, qb, known_cfg=kcfg, group=g + "-quota")
+            run.extra["quota_schedules"] = run.extra.get("quota_schedules", 0) + len(qb)
         if collide and rg in (None, g + "-collide"):
             # the same schedules with every prefix of a table in ONE hash bucket (hook VerifKeyHook of
             # internal/pkg/table): the collision chains are walked by every insert, delete and lookup
